@@ -9,6 +9,7 @@
 
 #include "corecel/Macros.hh"
 #include "corecel/Types.hh"
+#include "corecel/math/Algorithms.hh"
 #include "corecel/math/ArrayOperators.hh"
 #include "celeritas/Constants.hh"
 #include "celeritas/Quantities.hh"
@@ -134,6 +135,9 @@ CELER_FUNCTION Interaction ChipsNeutronElasticInteractor::operator()(Engine& rng
     // squared (\f$ -t = Q^{2} \f$) in the c.m. frame
     real_type cos_theta
         = 1 - real_type(0.5) * sample_momentum_square_(rng) / ipow<2>(cm_p);
+    // The sampled momentum transfer is clamped to its maximum (backward
+    // scattering), for which roundoff can give a cosine just below -1
+    cos_theta = celeritas::clamp(cos_theta, real_type(-1), real_type(1));
     CELER_ASSERT(std::fabs(cos_theta) <= 1);
 
     // Boost to the center of mass (c.m.) frame
